@@ -1,9 +1,9 @@
 package main
 
 import (
-	"go/types"
 	"fmt"
 	"go/token"
+	"go/types"
 	"sort"
 	"strings"
 
@@ -585,15 +585,15 @@ func c10r3(r *R) {
 
 // reviewed explicit panic sites reachable on goroutines without a recover frame
 var reviewedPanics = map[string]string{
-	"(*proxyserver.Server).serveHTTP1|dyn":                                          "`panic(err)` after the two expected Serve errors were excluded (C17.R5 checks the guards); documented 'impossible'",
-	"(*http2.FrameHeader).checkValid|Frame accessor called on non-owned Frame":      "accessors are called by the parsers/serve loop only on the frame ReadFrame just produced (valid=true until the next ReadFrame)",
-	"(*http2.pipe).closeWithError|err must be non-nil":                              "timer callbacks pass a freshly built non-nil error (os.ErrDeadlineExceeded wrap)",
-	"(*http2.writePushPromise).writeFrame|unexpected empty hpack":                   "header block always contains the pseudo-headers written by encKV just above",
-	"(*http2.writeResHeaders).writeFrame|unexpected empty hpack":                    "header block always contains :status or trailers; guarded by the caller",
-	"(http2.goroutineLock).checkNotOn|running on the wrong goroutine":               "only active with DEBUG_HTTP2_GOROUTINES=1 (debug aid)",
-	"(http2.goroutineLock).check|running on the wrong goroutine":                    "only active with DEBUG_HTTP2_GOROUTINES=1 (debug aid)",
-	"http2.curGoroutineID|Failed to parse goroutine ID out of %q: %v":               "only active with DEBUG_HTTP2_GOROUTINES=1 (debug aid)",
-	"http2.curGoroutineID|No space found in %q":                                     "only active with DEBUG_HTTP2_GOROUTINES=1 (debug aid)",
+	"(*proxyserver.Server).serveHTTP1|dyn":                                     "`panic(err)` after the two expected Serve errors were excluded (C17.R5 checks the guards); documented 'impossible'",
+	"(*http2.FrameHeader).checkValid|Frame accessor called on non-owned Frame": "accessors are called by the parsers/serve loop only on the frame ReadFrame just produced (valid=true until the next ReadFrame)",
+	"(*http2.pipe).closeWithError|err must be non-nil":                         "timer callbacks pass a freshly built non-nil error (os.ErrDeadlineExceeded wrap)",
+	"(*http2.writePushPromise).writeFrame|unexpected empty hpack":              "header block always contains the pseudo-headers written by encKV just above",
+	"(*http2.writeResHeaders).writeFrame|unexpected empty hpack":               "header block always contains :status or trailers; guarded by the caller",
+	"(http2.goroutineLock).checkNotOn|running on the wrong goroutine":          "only active with DEBUG_HTTP2_GOROUTINES=1 (debug aid)",
+	"(http2.goroutineLock).check|running on the wrong goroutine":               "only active with DEBUG_HTTP2_GOROUTINES=1 (debug aid)",
+	"http2.curGoroutineID|Failed to parse goroutine ID out of %q: %v":          "only active with DEBUG_HTTP2_GOROUTINES=1 (debug aid)",
+	"http2.curGoroutineID|No space found in %q":                                "only active with DEBUG_HTTP2_GOROUTINES=1 (debug aid)",
 }
 
 func panicMessage(c *Ctx, p *ssa.Panic) string {
@@ -733,7 +733,7 @@ func init() {
 // divisions by a non-constant. Each site is either structurally safe or listed in the reviewed table.
 var reviewedImplicit = map[string]string{
 	"(*http2.Framer).ReadFrame|assert *http2.HeadersFrame of dyn:http2.typeFrameParser(http2.readFrameHeader(p0.headerBuf[:], p0.r)#0.Type)(p0.frameCache, http2.readFrameHeader(p0.headerBuf[:], p0.r)#0, p0.countError, dyn:p0.getReadBuf(http2.readFrameHeader(p0.headerBuf[:], p0.r)#0.Length))#0": "guarded by fh.Type == FrameHeaders; the parser table maps that type to parseHeadersFrame, whose only success result is *HeadersFrame (C13.R1 / C19.R1 check both)",
-	"(*http2.Framer).readMetaFrame|assert *http2.ContinuationFrame of (*http2.Framer).ReadFrame(p0)#0":                                                                                                                                                                                                   "checkFrameOrder admits only CONTINUATION on the same stream after a HEADERS frame without END_HEADERS (decision table in C19.R3)",
+	"(*http2.Framer).readMetaFrame|assert *http2.ContinuationFrame of (*http2.Framer).ReadFrame(p0)#0": "checkFrameOrder admits only CONTINUATION on the same stream after a HEADERS frame without END_HEADERS (decision table in C19.R3)",
 	"http2.cutoff64|div by p0": "debug aid (DEBUG_HTTP2_GOROUTINES=1), called with base 10",
 }
 
